@@ -251,7 +251,7 @@ theorem c08_oneof (w : WatchResult) (h : w.wellFormed = true) :
     m.good_result.map projectVariableId = w.result ∧ watchSourceName m.source = w.source := by
   obtain ⟨e, r, er, src⟩ := w
   simp only [WatchResult.wellFormed, Bool.and_eq_true, Bool.not_eq_true', Bool.and_eq_false_iff] at h
-  have hs := (source_roundtrip h.2).2
+  have hs := (source_roundtrip h.2).2.1
   simp only [convertWatch, convertWatchSource, hs]
   refine ⟨?_, ?_, ?_, ?_, ?_⟩
   · cases r <;> simp
@@ -314,13 +314,14 @@ theorem c08_wire_schema :
             (7, "attributes"), (8, "duration_nanos"), (9, "resource"), (10, "log_msg")]) = true := by
   decide
 
-/-- **attribute values survive**: every AnyValue protobuf accepts — strings, bools, int64, doubles, bytes, arrays and
+/-- model lemma: (generated / template codec reads back what it wrote) every AnyValue protobuf accepts — strings, bools, int64, doubles, bytes, arrays and
     key-value lists NESTED TO ANY DEPTH, empty values inside arrays — is read back from its bytes exactly -/
 theorem c08_wire_anyvalue (v : PAnyValue) (Accepted : v.accepts = true) (DoublesAre64Bit : v.bitsOk = true)
     (IsAMessage : v ≠ .pyNone) : decAny (encRecs (encAny v)) = some v :=
   rt_AnyValue v Accepted DoublesAre64Bit IsAMessage
 
-/-- **a snapshot message survives**: for every Snapshot message protobuf accepts (any number of frames, table
+/-- model lemma: (generated codec reads back what it wrote — the PROPERTY theorem is `c08_survives_serialisation`)
+    for every Snapshot message protobuf accepts (any number of frames, table
     entries, children, watches, attributes; any well-formed text; every optional field set or unset) that is a
     message at all (`wireOk`: a watch holds ONE member of its oneof, doubles are 64-bit patterns), decoding its bytes
     gives back exactly that message — codec generated from the installed descriptors -/
@@ -328,7 +329,8 @@ theorem c08_wire_snapshot (m : PSnapshot) (Accepted : m.accepts = true) (IsAMess
     decSnapshot (encRecs (encSnapshot m)) = some m :=
   rt_Snapshot m Accepted IsAMessage
 
-/-- …and so does every poll request (time stamp, hash, resource with its attributes and dropped count) -/
+/-- model lemma: …and so does the generated codec of every poll request (time stamp, hash, resource with its attributes and dropped
+    count) that protobuf accepts and that is a message (`wireOk`) -/
 theorem c08_wire_pollrequest (m : PPollRequest) (Accepted : m.accepts = true) (IsAMessage : m.wireOk = true) :
     decPollRequest (encRecs (encPollRequest m)) = some m :=
   rt_PollRequest m Accepted IsAMessage
@@ -381,10 +383,13 @@ example : (PAnyValue.array_value (.cons (.kvlist_value (.cons [107] (.array_valu
 theorem c08_base64_roundtrip (bs : List Nat) (h : bytesOk bs = true) : b64decode (b64encode bs).toList = some bs :=
   b64_roundtrip bs h
 
-/-- **the basic-auth header**: with both credentials configured the provider (translated `BasicAuthProvider.provide`)
-    supplies exactly one pair, `authorization: Basic%20<base64>`, and decoding that base64 gives back exactly the
-    UTF-8 bytes of `username:password` — for every user name and password (empty, containing `:`, non-ASCII, any
-    length); with either credential missing it supplies nothing -/
+/-- tripwire + model lemma: **the basic-auth header** — conjuncts 1 and 3 unfold the TRANSLATED `BasicAuthProvider.provide`
+    (exactly one pair `authorization: Basic%20<base64>`; nothing when a credential is missing), conjunct 2 is the base64
+    round trip: decoding gives back exactly the UTF-8 bytes of `username:password`.  DOMAIN: `u`, `p` range over Lean
+    `String`, i.e. Python `str` credentials WITHOUT lone surrogates (empty, containing `:`, non-ASCII, any length).
+    Outside it `provide()` raises — a lone surrogate: UnicodeEncodeError at `.encode("utf-8")`, a non-str credential:
+    TypeError at `+` — which the auth model covers as a provider fault on every call (nothing sent, nothing cached:
+    `c08_auth`, `c08_auth_fault_not_cached`); the auth stream feeds such credentials to the real code every run. -/
 theorem c08_basic_auth_header (u p : String) :
     basicProvide (some u) (some p) = [("authorization", "Basic%20" ++ b64encode (utf8 (u ++ ":" ++ p)))] ∧
     b64decode (b64encode (utf8 (u ++ ":" ++ p))).toList = some (utf8 (u ++ ":" ++ p)) ∧
@@ -460,16 +465,32 @@ theorem c08_auth_fault_not_cached (c : AuthCfg) (faults : Nat → Bool) (g : Grp
     · simp [hf, h]
     · simp [hf] at hraise
 
-/-- **a provider class that cannot be loaded** (`AuthProvider.get_provider` raises: no dot in the name — ValueError,
-    unknown module — ModuleNotFoundError, unknown attribute — AttributeError, not instantiable — TypeError; none of
-    the loading statements is guarded): for every such configuration and every sequence of polls and pushes NOTHING is
-    sent — no request ever goes out without the configured provider's metadata — and nothing is cached -/
-theorem c08_auth_unloadable_sends_nothing (c : AuthCfg) (ProviderConfigured : noProvider c.providerName = false)
-    (ops : List Op) : ∀ w ∈ run c (fun _ => true) ⟨none, 0⟩ ops, w.metadata = none :=
-  run_unloadable c ProviderConfigured ⟨by decide, by decide⟩ ops ⟨none, 0⟩ rfl
+/-- **a provider that cannot be loaded** — `c.unloadable`: a provider name is configured and its kind is
+    `ProviderKind.unloadable`, i.e. `AuthProvider.get_provider` RAISES for it (no dot in the name: ValueError, unknown
+    module: ModuleNotFoundError, unknown attribute: AttributeError, the attribute is `None` as for `builtins.None`:
+    UnknownAuthProvider, not instantiable: TypeError; `c08_get_provider_load` pins that no loading statement is guarded).
+    For every such configuration, every environment (`faults`) and every sequence of polls and pushes NOTHING is sent —
+    no request goes out without the configured provider's metadata.  (A corollary of the fault model: `runCfg` runs the
+    configuration with its own faults, `effFaults`, which are "every call" here.) -/
+theorem c08_auth_unloadable_sends_nothing (c : AuthCfg) (Unloadable : c.unloadable = true) (faults : Nat → Bool)
+    (ops : List Op) : ∀ w ∈ runCfg c faults ⟨none, 0⟩ ops, w.metadata = none := by
+  simp only [AuthCfg.unloadable, Bool.and_eq_true, Bool.not_eq_true', decide_eq_true_eq] at Unloadable
+  have he : effFaults c faults = fun _ => true := by
+    funext i
+    simp [effFaults, AuthCfg.unloadable, Unloadable.1, Unloadable.2]
+  unfold runCfg
+  rw [he]
+  exact run_unloadable c Unloadable.1 (by rw [Unloadable.2]; decide) ⟨by decide, by decide⟩ ops ⟨none, 0⟩ rfl
 
-/-- tripwire: how `get_provider` loads the class (the documented `UnknownAuthProvider` is raised only in a branch that
-    `getattr` never reaches: it raises AttributeError itself) -/
+/-- …and for EVERY configuration run with its own faults (loadable or not, a callable that is not a provider included)
+    each request that does go out carries what the configured provider supplies -/
+theorem c08_auth_cfg (c : AuthCfg) (faults : Nat → Bool) (ops : List Op) :
+    ∀ w ∈ runCfg c faults ⟨none, 0⟩ ops, ∀ x, w.metadata = some x → x = some (expectedMetadata c) :=
+  c08_auth c (effFaults c faults) ops
+
+/-- tripwire: how `get_provider` loads the class.  The documented `UnknownAuthProvider` is raised only when the attribute
+    EXISTS AND IS `None` (`SERVICE_AUTH_PROVIDER='builtins.None'`); every realistic failure surfaces as ValueError /
+    ModuleNotFoundError / AttributeError / TypeError from the unguarded statements -/
 theorem c08_get_provider_load :
     getProviderLoad = ["module, cls = provider.rsplit('.', 1)", "provider_class = getattr(import_module(module), cls)",
                        "if provider_class is None:", "return provider_class(config)"] := by
@@ -491,13 +512,16 @@ example :
          some (some [("authorization", "Bearer t"), ("x-org", "7")]), none] := by
   decide
 
-/-- non-vacuity: with a provider name that cannot be loaded a poll and a push send nothing, while the same operations
-    with no provider configured go out (with empty metadata) -/
+/-- non-vacuity: with a provider name that cannot be loaded (`builtins.None`) a poll and a push send nothing in a
+    fault-free environment; a callable that is not a provider (`builtins.print`) is treated as no provider: both go out
+    with empty metadata -/
 example :
-    let bad : AuthCfg := ⟨some "deep.api.auth.Missing", .custom [], none, none⟩
+    let bad : AuthCfg := ⟨some "builtins.None", .unloadable, none, none⟩
+    let notp : AuthCfg := ⟨some "builtins.print", .notAProvider, none, none⟩
     let ops : List Op := [.poll 1 [] ⟨[], 0⟩, .push (witness (.bool true) (Text.ofString "fn"))]
-    (run bad (fun _ => true) ⟨none, 0⟩ ops).map Wire.metadata = [none, none] ∧
-    (run ⟨none, .basic, none, none⟩ (fun _ => true) ⟨none, 0⟩ ops).map Wire.metadata = [some (some []), some (some [])] := by
+    bad.unloadable = true ∧ (runCfg bad (fun _ => false) ⟨none, 0⟩ ops).map Wire.metadata = [none, none] ∧
+    notp.unloadable = false ∧
+    (runCfg notp (fun _ => false) ⟨none, 0⟩ ops).map Wire.metadata = [some (some []), some (some [])] := by
   decide
 
 /-- basic auth without a password supplies no metadata — and the requests still carry the (empty) metadata argument -/
